@@ -310,7 +310,10 @@ fn is_variable_usage_allowed(
         // 3.a. let hasNonNullVariableDefaultValue be true
         // if a default value exists for variableDefinition
         // and is not the value null.
-        let has_non_null_default_value = variable_def.default_value.is_some();
+        let has_non_null_default_value = variable_def
+            .default_value
+            .as_ref()
+            .is_some_and(|value| !value.is_null());
         // 3.b. Let hasLocationDefaultValue be true if a default
         // value exists for the Argument or ObjectField where
         // variableUsage is located.
